@@ -103,7 +103,19 @@ type RSecret struct {
 	Key       BS        `json:"key"`
 	Prefixes  []RPrefix `json:"prefixes"`
 	NoHandler bool      `json:"nohandler"`
+	Span      *RSpan    `json:"span,omitempty"`
 }
+
+// RSpan: the scope's handler is the SPAN handler (mirrors packets to a TCP destination, then hands over to START)
+type RSpan struct {
+	Dest string `json:"dest"` // ok: the harness' mirror listener | refused: a port nobody listens on
+	PT   int    `json:"pt"`   // packetType filter (0 none)
+	RA   BS     `json:"ra"`   // remAddr filter (empty none)
+	SW   string `json:"sw"`   // switchAddr filter: "" none | match | mismatch
+}
+
+// addresses of the mirror listener and of a closed port, set by cmdRef before any configuration is rendered
+var mirrorAddr, refusedAddr string
 type RCfg struct {
 	Secrets []RSecret `json:"secrets"`
 	Users   []RUser   `json:"users"`
@@ -303,6 +315,25 @@ func renderCfg(c *RCfg) config.ServerConfig {
 		if s.NoHandler {
 			h = config.Handler{Type: config.HandlerType(99)}
 		}
+		if s.Span != nil {
+			o := map[string]string{"destination": mirrorAddr}
+			if s.Span.Dest == "refused" {
+				o["destination"] = refusedAddr
+			}
+			if s.Span.PT != 0 {
+				o["packetType"] = []string{"", "Authenticate", "authorize", "ACCOUNTING"}[s.Span.PT]
+			}
+			if len(s.Span.RA) > 0 {
+				o["remAddr"] = string(s.Span.RA)
+			}
+			switch s.Span.SW {
+			case "match":
+				o["switchAddr"] = o["destination"]
+			case "mismatch":
+				o["switchAddr"] = "[::1]:9"
+			}
+			h = config.Handler{Type: config.SPAN, Options: o}
+		}
 		sc.Secrets = append(sc.Secrets, config.SecretConfig{Name: s.Name, Secret: config.Keychain{Group: "g", Key: string(s.Key)}, Handler: h,
 			Type: config.PREFIX, Options: map[string]string{"prefixes": string(pj)}})
 	}
@@ -413,6 +444,7 @@ type refRun struct {
 	sysConn net.Conn
 	sysRd   *bufio.Reader
 	lastCh  chanCfg // the configuration channel of the loader built last
+	mirLn   *net.TCPListener
 }
 
 type refConnState struct {
@@ -464,6 +496,7 @@ func (r *refRun) loaderFor2(c *RCfg, cached bool) *loader.Loader {
 		loader.SetAuthorizerProvider(stringy.New(r.log)),
 		loader.RegisterSecretProviderType(config.PREFIX, prefix.New(r.log)),
 		loader.RegisterHandlerType(config.START, handlers.NewStart(r.log)),
+		loader.RegisterHandlerType(config.SPAN, handlers.NewSpan(r.log)),
 		loader.RegisterAuthenticator(config.BCRYPT, bcrypt.New(r.log, okSecret{})),
 		loader.RegisterAccounter(config.FILE, acc),
 		loader.RegisterAccounter(config.SYSLOG, r.syslogAccounter()),
@@ -819,8 +852,47 @@ func (r *refRun) runScenario(sc *RScen) {
 			}
 		}
 	}
+	r.collectMirrors()
 	r.rec.Emit(E{"e": "end"})
 	r.log.on = false
+}
+
+// collectMirrors: what the span destination has received. The span handler writes to its connection before the reply
+// reaches the client, so when the scenario is over every mirrored octet already sits in the kernel's queue of the
+// accepted connection: a read with a short deadline returns it at once. Connections are reported in the order they
+// were dialled (requests are fed one at a time).
+func (r *refRun) collectMirrors() {
+	if r.mirLn == nil {
+		return
+	}
+	uses := false
+	for _, s := range r.curScen.Cfg.Secrets {
+		uses = uses || s.Span != nil
+	}
+	if !uses {
+		return
+	}
+	k := 0
+	for {
+		r.mirLn.SetDeadline(time.Now().Add(40 * time.Millisecond))
+		c, err := r.mirLn.Accept()
+		if err != nil {
+			break
+		}
+		k++
+		var got []byte
+		buf := make([]byte, 1<<16)
+		for {
+			c.SetReadDeadline(time.Now().Add(40 * time.Millisecond))
+			n, err := c.Read(buf)
+			got = append(got, buf[:n]...)
+			if err != nil {
+				break
+			}
+		}
+		c.Close()
+		r.rec.Emit(E{"e": "mir", "k": k, "b": B(got)})
+	}
 }
 
 // cmdRef <scenarios.ndjson> <trace.ndjson> <seed>
@@ -839,6 +911,15 @@ func cmdRef(args []string) {
 	}
 	// two session ids that differ only in the upper half (a table keyed too coarsely would merge them)
 	r.sidPool[3] = r.sidPool[2] ^ 0x00010000
+	if ln, err := net.Listen("tcp6", "[::1]:0"); err == nil {
+		r.mirLn = ln.(*net.TCPListener)
+		mirrorAddr = ln.Addr().String()
+		if l2, err := net.Listen("tcp6", "[::1]:0"); err == nil {
+			refusedAddr = l2.Addr().String()
+			l2.Close()
+		}
+		defer ln.Close()
+	}
 	r.start()
 	f, err := os.Open(in)
 	if err != nil {
